@@ -901,16 +901,17 @@ def leaf_errors(errors: Sequence[Any], document: Any = None) -> List[Any]:
     """
     out: List[Any] = []
 
-    def model_type_mismatch(err: Any) -> bool:
-        return err.validator == "const" and list(err.absolute_path)[-1:] == ["modelType"]
-
     def visit(err: Any) -> None:
         if err.context:
+            here = list(err.absolute_path) + ["modelType"]
             branches: Dict[Any, List[Any]] = {}
             for sub in err.context:
                 index = sub.relative_schema_path[0] if sub.relative_schema_path else None
                 branches.setdefault(index, []).append(sub)
-            relevant = [subs for subs in branches.values() if not any(model_type_mismatch(s) for s in _flatten(subs))]
+            relevant = [
+                subs for subs in branches.values()
+                if not any(s.validator == "const" and list(s.absolute_path) == here for s in subs)
+            ]
             if not relevant:
                 out.append(err)
                 return
@@ -922,15 +923,6 @@ def leaf_errors(errors: Sequence[Any], document: Any = None) -> List[Any]:
 
     for error in errors:
         visit(error)
-    return out
-
-
-def _flatten(errors: Sequence[Any]) -> List[Any]:
-    out: List[Any] = []
-    for err in errors:
-        out.append(err)
-        if err.context:
-            out.extend(_flatten(err.context))
     return out
 
 
@@ -1272,13 +1264,59 @@ def open_schema(chk: harness.Check, name: str, text: str) -> Optional[Schema]:
         return None
 
 
+def memoise_model(pm: PyModel) -> None:
+    """
+    Cache the derived-structure queries of *this* PyModel object (they are pure; the
+    instance generator asks them hundreds of thousands of times).
+    """
+    import functools
+
+    for method in ("ancestors", "all_props", "all_invariants", "primitive_of", "is_class",
+                   "is_enum", "is_constrained_primitive", "concrete_descendants",
+                   "descendants", "with_model_type"):
+        bound = getattr(pm, method)
+        setattr(pm, method, functools.lru_cache(maxsize=None)(bound))
+
+
+def open_sdk(chk: harness.Check, name: str, text: str) -> Optional[Tuple[PyModel, pysdk.Sdk]]:
+    """
+    As :func:`vf.sdkloop.open_sdk` without the separate front-end run (the jsonschema
+    target has just accepted the model).
+    """
+    try:
+        pm = PyModel(text)
+    except Exception as err:
+        chk.count("reference_executor_failed")
+        chk.hist("reference_executor_failure", type(err).__name__)
+        return None
+    memoise_model(pm)
+    try:
+        sdk = pysdk.Sdk(text, pm)
+    except pysdk.SdkError as err:
+        if err.result.exc is not None:
+            chk.count("models_python_generator_crashed")
+        else:
+            chk.count("models_python_generator_rejected")
+            head = (err.result.stderr.strip().splitlines() or [""])[-1]
+            chk.hist("generator_rejections", normalise_message(head))
+        return None
+    except Exception as err:
+        chk.count("models_sdk_import_failed_skipped")
+        chk.hist("sdk_import_failures", type(err).__name__)
+        return None
+    finally:
+        driver._wipe_cache()
+    chk.count("models_with_sdk")
+    return pm, sdk
+
+
 def open_model(chk: harness.Check, name: str, text: str, rng: random.Random,
                schema: Optional[Schema] = None) -> Optional[Opened]:
     if schema is None:
         schema = open_schema(chk, name, text)
         if schema is None:
             return None
-    opened = sdkloop.open_sdk(chk, name, text)
+    opened = open_sdk(chk, name, text)
     if opened is None:
         return None
     pm, sdk = opened
@@ -1387,8 +1425,13 @@ def classify_rejection(op: Opened, inst: Inst, doc: Any, err: Any) -> Tuple[str,
         detail.update({"class": cls, "property": prop, "value_kind": value_kind})
         recs = op.rec.for_value(cls, prop, hit.prop.type, item=(hit.kind == "item"))
         lo, hi, pats = effective(recs)
+        active = [
+            (r, "conditional-with-guard-set") for r in op.rec.misread_candidates(cls, prop)
+            if hit.kind == "value" and hit.owner.props.get(r.guard[1]) is not None
+        ]
         if value_kind == "bytes" and keyword in ("minLength", "maxLength"):
-            bound = (lo if keyword == "minLength" else hi)
+            lo_a, hi_a, _ = effective(recs + active)
+            bound = (lo_a if keyword == "minLength" else hi_a)
             if bound is not None and bound[0] == err.validator_value:
                 detail["byte_length"] = len(hit.value)
                 detail["base64_length"] = b64len(len(hit.value))
